@@ -90,7 +90,9 @@ FilterFails(e) ==
       Grp(k) == {o \in ObsIx : KeyOf[o] = k}
       RefE(k) == [l |-> UNION {OEx(o).l : o \in Grp(k)}, r |-> UNION {OEx(o).r : o \in Grp(k)}]
       Cnt(k) == Cardinality(Grp(k))
-      ValidKeys == {k \in AllKeys : Cnt(k) >= e.min}
+      \* what the summarizer accepts: CountFilter compares its SATURATED 16-bit count with the threshold, the others the
+      \* number of observations (thresholds beyond 10^9 are logged as 10^9: no count in a trace reaches that)
+      ValidKeys == {k \in AllKeys : (IF e.mode = 0 THEN Min2(Cnt(k), 65535) ELSE Cnt(k)) >= e.min}
       \* labels of the observations of k in input order: reads ascending, positions ascending
       InOrder(k) == LET ord == SortSet({(o[1] * 100000) + o[2] : o \in Grp(k)}) IN
                     [i \in 1..Len(ord) |-> e.reads[ord[i] \div 100000].label]
